@@ -155,16 +155,25 @@ func (r *Refs) RenameBranch(rootGoitPath, curBranchName, newBranchName string) e
 	}
 
 	// rename branch
-	r.Heads[curNum].Name = newBranchName
+	renamed := r.Heads[curNum]
+	renamed.Name = newBranchName
 	sort.Slice(r.Heads, func(i, j int) bool { return r.Heads[i].Name < r.Heads[j].Name })
 
-	// rename file
-	oldPath := filepath.Join(rootGoitPath, "refs", "heads", curBranchName)
-	newPath := filepath.Join(rootGoitPath, "refs", "heads", newBranchName)
-	if err := os.Rename(oldPath, newPath); err != nil {
-		return fmt.Errorf("fail to rename file: %w", err)
+	// write the file of the new name; the file of the old name stays until HEAD has been
+	// pointed at the new one (RemoveBranchFile), so that HEAD never names a missing branch
+	if err := renamed.write(rootGoitPath); err != nil {
+		return fmt.Errorf("fail to write branch file: %w", err)
 	}
 
+	return nil
+}
+
+// RemoveBranchFile removes the file of a branch that was renamed
+func (r *Refs) RemoveBranchFile(rootGoitPath, branchName string) error {
+	branchPath := filepath.Join(rootGoitPath, "refs", "heads", branchName)
+	if err := os.Remove(branchPath); err != nil {
+		return fmt.Errorf("fail to delete branch file: %w", err)
+	}
 	return nil
 }
 
